@@ -172,6 +172,10 @@ def make_input(call, ci, sh):
 # ------------------------------------------------------------------------------------ the case child
 
 
+class _BodyError(Exception):
+    pass
+
+
 def _frames_signature():
     sig = []
     for tid, fr in sys._current_frames().items():
@@ -380,11 +384,16 @@ def run_case_here(case, outpath, scratch):
         wq = case.get("wq", 1.0)
         rq = case.get("rq")
         quota = case.get("quota") or math.inf
+        if case.get("float_quota") and quota != math.inf:
+            quota = float(quota)           # the parameter is annotated as float: 3.0 is as legal as 3
+        if case.get("nofile"):
+            import resource
+            resource.setrlimit(resource.RLIMIT_NOFILE, (case["nofile"], resource.getrlimit(resource.RLIMIT_NOFILE)[1]))
         faults = {int(k): tuple(v) for k, v in (case.get("faults") or {}).items()}
         if case["pool"] == "factory":
             pool = opp.FactoryFunctorPool(case["workers"],
                                           pw.HFactory(sh, quota, faults, case.get("end_delay", 0), case.get("begin_delay", 0),
-                                                      start_method, plan_items),
+                                                      start_method, plan_items, case.get("slow_create", 0)),
                                           context=ctx, work_queue_maxsize=wq, results_queue_maxsize=rq,
                                           join_timeout=case.get("join_timeout"))
         else:
@@ -396,7 +405,9 @@ def run_case_here(case, outpath, scratch):
         state["pool"] = pool
         state["phase"] = "pool_enter"
         sh.log("pool_enter")
-        with pool:
+        body_raises = case.get("body_raises")
+        try:
+          with pool:
             sh.log("pool_entered", pids=[p.pid for p in pool.procs])
             if case.get("ready_first"):
                 state["phase"] = "until_all_ready"
@@ -455,6 +466,12 @@ def run_case_here(case, outpath, scratch):
             ready_stop.set()
             state["phase"] = "pool_exit"
             sh.log("pool_exit_enter", pids=[p.pid for p in pool.procs])
+            if body_raises:
+                # the with-block ends with an exception (after fully consumed calls): the workers are still to be stopped
+                # in an orderly way - end() in every one of them, nobody left running
+                raise _BodyError("the body of the pool context raises")
+        except _BodyError:
+            sh.log("body_exception_propagated")
         state["pool"] = None
         sh.log("pool_exit_return")
         # who is still running? (every pid that ever logged begin_enter)
